@@ -73,6 +73,8 @@ enum Op {
     PeerRestart,
     /// 2-3 queries on one port-53 flow before the first answer: every answer must come back, then the socket is released
     DnsBurst,
+    /// one client datagram, then only the peer talks: a datagram every T/3 for more than 2T - traffic in either direction keeps a flow alive
+    ReplyStream(usize),
 }
 
 struct Server {
@@ -171,11 +173,12 @@ async fn run_history(root: std::path::PathBuf, seed: u64, h: u64, t_ms: u64, cou
             12 => Op::ClosedPort,
             13 => Op::PeerRestart,
             14 => Op::DnsBurst,
-            _ => Op::Dns,
+            _ => if r.chance(1, 3) { Op::ReplyStream(r.below(3) as usize) } else { Op::Dns },
         });
     }
     if h % 3 == 0 { let at = r.below(ops.len() as u64 + 1) as usize; ops.insert(at, Op::PeerRestart); }
     if h % 3 == 1 { let at = r.below(ops.len() as u64 + 1) as usize; ops.insert(at, Op::DnsBurst); }
+    if h % 3 == 2 { let at = r.below(ops.len() as u64 + 1) as usize; ops.insert(at, Op::ReplyStream((h % 2) as usize)); }
     ops.push(Op::Send(0));
     ops.push(Op::Send(1));
     let mut seq = 0u64;
@@ -211,6 +214,32 @@ async fn run_history(root: std::path::PathBuf, seed: u64, h: u64, t_ms: u64, cou
                         sent.push((100 + *f, p, Instant::now()));
                         last_activity.insert(*f, Instant::now());
                     }
+                }
+            }
+            Op::ReplyStream(f) => {
+                seq += 1;
+                let p0 = mk_payload(*f, seq);
+                send(*f, &p0);
+                sent.push((*f, p0.clone(), Instant::now()));
+                last_activity.insert(*f, Instant::now());
+                tokio::time::sleep(Duration::from_millis(40)).await;
+                let srv = servers.iter().find(|s| s.addr == flows[*f].1).unwrap();
+                let peer = srv.received.lock().unwrap().iter().rev().find(|(p, _)| *p == p0).map(|(_, a)| *a);
+                if let Some(peer) = peer {
+                    let mut on_time = true;
+                    for _ in 0..8 {
+                        let before = Instant::now();
+                        tokio::time::sleep(Duration::from_millis(t_ms / 3)).await;
+                        if before.elapsed().as_millis() as u64 > t_ms / 3 + t_ms / 4 { on_time = false; break; }
+                        seq += 1;
+                        let p = format!("X:h{}f{}s{}", h, f, seq).into_bytes();
+                        let _ = srv.sock.send_to(&p, peer).await;
+                        sent.push((100 + *f, p, Instant::now()));
+                        last_activity.insert(*f, Instant::now());
+                    }
+                    if !on_time { res.inconclusive.push("reply stream: sleep overshoot".into()); }
+                    else { *res.tallies.entry("reply stream: 8 peer datagrams at T/3 intervals on a flow the client keeps silent".into()).or_insert(0) += 1; }
+                    tokio::time::sleep(Duration::from_millis(40)).await;
                 }
             }
             Op::Wait(ms) => {
